@@ -13,9 +13,13 @@ if [ ! -d "$wt" ]; then git -C /repo worktree add -q --detach "$wt" HEAD >>$log 
 cd "$wt" && git checkout -q -- . && git clean -fdq
 # where does the demo go?  first line: "// copy to <dir> ..." ; we look for a path-like token that is a directory of the repo
 demo=$src/demo_test.go
-dir=$(head -5 $demo | grep -oE '(\./)?(pkg|providers)[A-Za-z0-9_/.-]*|repo root|root package' | head -1)
-case "$dir" in ""|"repo root"|"root package") dir=. ;; esac
-dir=${dir%/}; [ -d "$dir" ] || dir=$(dirname "$dir")
+pkgname=$(grep -m1 -E '^package ' $demo | awk '{print $2}')
+dir=$(head -12 $demo | grep -oE 'go test[^`]*' | grep -oE ' \./[A-Za-z0-9_/.-]+| \.( |$)' | tail -1 | tr -d ' ')
+if [ "$pkgname" = main ]; then dir=.; fi
+[ -n "$dir" ] || dir=$(head -5 $demo | grep -oE '(pkg|providers)[A-Za-z0-9_/.-]*' | head -1)
+[ -n "$dir" ] || dir=.
+dir=${dir%/}; dir=${dir#./}; [ -n "$dir" ] || dir=.
+[ -d "$dir" ] || dir=$(dirname "$dir")
 runpat=$(head -8 $demo | grep -oE '\-run[ =]+[^ ]+' | head -1 | sed -E 's/-run[ =]+//; s/[`"'"'"']//g')
 [ -n "$runpat" ] || runpat=.
 echo "demo dir=$dir run=$runpat" >>$log
